@@ -449,28 +449,7 @@ func privateCell(v ssa.Value) *ssa.Alloc {
 type edge struct{ from, to *ssa.BasicBlock }
 
 func reachAvoiding(fn *ssa.Function, from *ssa.BasicBlock, avoidB map[*ssa.BasicBlock]bool, avoidE map[edge]bool) map[*ssa.BasicBlock]bool {
-	fl := flatOf(fn)
-	out := map[*ssa.BasicBlock]bool{}
-	if len(fl.Blocks) == 0 {
-		return out
-	}
-	var starts []*FB
-	if from == nil {
-		starts = []*FB{fl.Blocks[0]}
-	} else {
-		for _, s := range fl.segs[from] {
-			if s.Lo == 0 {
-				starts = append(starts, s)
-			}
-		}
-	}
-	r := fl.reach(starts, func(s *FB) bool { return avoidB[s.B] }, func(a, b *FB) bool {
-		return a.Ctx == b.Ctx && avoidE[edge{a.B, b.B}]
-	})
-	for s := range r {
-		out[s.B] = true
-	}
-	return out
+	return flatOf(fn).reachBlocks(from, avoidB, avoidE)
 }
 
 // instrIndex returns the index of i in its block.
